@@ -239,12 +239,20 @@ def _sized(tree, cls, side, f):
     return out[0], out[1]
 
 
+def _hooks(tree):
+    """the module defines attribute hooks (descriptors, __getattr__, __setattr__): an attribute read / store may run code"""
+    return tree is not None and any(isinstance(n, (ast.FunctionDef, ast.AsyncFunctionDef)) and n.name in ('__getattr__', '__getattribute__', '__setattr__', '__delattr__', '__get__', '__set__',
+                                                                                                       '__set_name__') for n in ast.walk(tree))
+
+
 def _ctx(tree, seqs, cls, unknown_base=False, side='cur'):
     others = set()
     if tree is not None:
         for c in ast.walk(tree):
             if isinstance(c, ast.ClassDef) and (cls is None or c is not cls):
-                others |= {g.name for g in c.body if isinstance(g, (ast.FunctionDef, ast.AsyncFunctionDef))}
+                others |= {g.name for g in ast.walk(c) if isinstance(g, (ast.FunctionDef, ast.AsyncFunctionDef))}
+                others |= {x.id for st in c.body for x in ast.walk(st) if isinstance(x, ast.Name) and isinstance(x.ctx, (ast.Store, ast.Del))}
+        others |= _rebound_names(tree)
     glob = {x for n in ast.walk(tree) if isinstance(n, ast.Global) for x in n.names} if tree is not None else set()
     mw = {}
     if cls is not None and tree is not None and not unknown_base:
@@ -254,7 +262,7 @@ def _ctx(tree, seqs, cls, unknown_base=False, side='cur'):
             # _class_scope returns the flattened bodies (class first, then bases): the first definition of a name wins
             mw = equiv.class_method_writes([scope_nodes], others)
     return {'method_writes': mw, 'mutable_globals': glob, 'module_bound': equiv.module_bound_names(tree) if tree is not None else (),
-            'all_props': (set(equiv.module_all_properties(tree)) if tree is not None else set()) | ({'*'} if unknown_base else set()),
+            'all_props': (set(equiv.module_all_properties(tree)) if tree is not None else set()) | ({'*'} if unknown_base or _hooks(tree) else set()),
             'seqs': seqs, 'other_class_methods': others}
 
 
@@ -271,12 +279,17 @@ def canonical_pair(f, cls, rf, cls_r, new_helpers, gone_helpers, cur_consts, ref
     unknown_base = (u1 or u2) and (cls is not None or cls_r is not None)
     # (a base class that cannot be read may define properties and attribute defaults: then nothing is known about the attributes
     # of self - no sized facts, and every attribute may be a property reading any other)
+    # tables that say "this name may mean something else": what either version of the module says holds for both
+    k1, k2 = _ctx(cur_tree, q1, cls, unknown_base), _ctx(ref_tree, q2, cls_r, unknown_base, 'ref')
+    for key in ('other_class_methods', 'mutable_globals', 'all_props', 'module_bound'):
+        u = set(k1[key]) | set(k2[key])
+        k1[key], k2[key] = u, set(u)
     c1 = equiv.canonical(f, new_helpers, cur_consts, s1, cls.name if cls is not None else '', cur_props, equiv.module_dicts(cur_tree) if cur_tree is not None else None,
-                         ctx=_ctx(cur_tree, q1, cls, unknown_base))
+                         ctx=k1)
     if c1 is None:
         return None, None
     c2 = equiv.canonical(rf, gone_helpers, ref_consts, s2, cls_r.name if cls_r is not None else '', ref_props, equiv.module_dicts(ref_tree) if ref_tree is not None else None,
-                         ctx=_ctx(ref_tree, q2, cls_r, unknown_base, 'ref'))
+                         ctx=k2)
     return c1, c2
 
 
